@@ -2,7 +2,9 @@ package c01
 
 import (
 	"fmt"
+	"os"
 	"testing"
+	"time"
 
 	"github.com/insomniacslk/dhcp/dhcpv4"
 	"verif/harness/gen4"
@@ -34,6 +36,7 @@ func lenClass(l int) string {
 }
 
 func check(r *mon.Rec, stream string, idx int, p *dhcpv4.DHCPv4, e *ref4.P4) {
+	r.Current(replay{stream, idx, ""})
 	r.Eval(1)
 	want := e.Canon()
 	var wire []byte
@@ -178,6 +181,9 @@ func firstDiff(a, b []byte) int {
 func TestCheck(t *testing.T) {
 	r := mon.New("C01")
 	defer r.Flush()
+	if os.Getenv("VERIF_REPLAY") == "" {
+		r.Watchdog(60 * time.Second)
+	}
 	var rp replay
 	if mon.ReplayCase(&rp) {
 		runCase(r, rp.Stream, rp.Idx)
